@@ -1,4 +1,5 @@
 SPECIFICATION ASpec
 CONSTANTS ProgFile = "progs.json"
 INVARIANTS I0_KnownOpcode I1_NoUnderflow I2_JumpsStayInside I3_OwnSlotsOnly I5_ReturnDepth I6_FallOffNeutral L1_NoMissingReturn EmitState
+CONSTRAINT DepthWindow
 CHECK_DEADLOCK FALSE
